@@ -57,14 +57,41 @@ class ClassInfo:
         return f'{self.module}:{self.name}'
 
 
+class _Computed(frozenset):
+    """Attribute names computed on read somewhere in the package; `of_class(C)` narrows to what class C (and its bases) compute, None if unknown."""
+    def __new__(cls, names, class_props=None):
+        o = super().__new__(cls, names)
+        o.class_props = class_props or {}
+        return o
+
+    def of_class(self, cname, _seen=None):
+        _seen = _seen or set()
+        if cname in _seen:
+            return set()
+        _seen.add(cname)
+        defs = self.class_props.get(cname)
+        if not defs or len(defs) != 1:
+            return None if cname not in ('object', 'ABC') else set()
+        props, bases, dyn = defs[0]
+        if dyn:
+            return None
+        out = set(props)
+        for b in bases:
+            sub = self.of_class(b, _seen)
+            if sub is None:
+                return None
+            out |= sub
+        return out
+
+
 class Module:
-    def __init__(self, name: str, path: str, relpath: str, src: str):
+    def __init__(self, name: str, path: str, relpath: str, src: str, computed_attrs=frozenset()):
         self.name = name
         self.path = path
         self.relpath = relpath
         self.src = src
         from .normalise import canonicalise
-        self.tree = canonicalise(ast.parse(src, filename=path))
+        self.tree = canonicalise(ast.parse(src, filename=path), computed_attrs)
         self.is_pkg = os.path.basename(path) == '__init__.py'
         self.symbols: Dict[str, Symbol] = {}
 
@@ -89,6 +116,7 @@ class PyIndex:
         root = os.path.join(self.repo, PKG)
         if not os.path.isdir(root):
             raise AnchorMissing(f'package directory {root} not found')
+        found = []
         for dirpath, dirnames, filenames in os.walk(root):
             dirnames[:] = sorted(d for d in dirnames if d != '__pycache__')
             for fn in sorted(filenames):
@@ -102,7 +130,35 @@ class PyIndex:
                 name = '.'.join(parts)
                 with open(path, encoding='utf8') as f:
                     src = f.read()
-                self.modules[name] = Module(name, path, rel, src)
+                found.append((name, path, rel, src))
+        # attribute names that are computed on read somewhere in the package (properties, __getattr__ users): a local alias of such an
+        # attribute is NOT interchangeable with the attribute path, so the canonicaliser must leave it alone
+        computed = set()
+        for name, path, rel, src in found:
+            try:
+                t = ast.parse(src, filename=path)
+            except SyntaxError:
+                continue
+            for n in ast.walk(t):
+                if isinstance(n, (ast.FunctionDef, ast.AsyncFunctionDef)) and any(
+                        (isinstance(d, ast.Name) and d.id in ('property', 'cached_property')) or
+                        (isinstance(d, ast.Attribute) and d.attr in ('setter', 'getter', 'cached_property')) for d in n.decorator_list):
+                    computed.add(n.name)
+        class_props = {}
+        for name, path, rel, src in found:
+            try:
+                t = ast.parse(src, filename=path)
+            except SyntaxError:
+                continue
+            for c in ast.walk(t):
+                if isinstance(c, ast.ClassDef):
+                    props = {n.name for n in c.body if isinstance(n, (ast.FunctionDef, ast.AsyncFunctionDef)) and n.name in computed and n.decorator_list}
+                    dyn = any(isinstance(n, ast.FunctionDef) and n.name in ('__getattr__', '__getattribute__') for n in c.body)
+                    bases = [b.id if isinstance(b, ast.Name) else (b.attr if isinstance(b, ast.Attribute) else '?') for b in c.bases]
+                    class_props.setdefault(c.name, []).append((props, bases, dyn))
+        self.computed_attrs = _Computed(computed, class_props)
+        for name, path, rel, src in found:
+            self.modules[name] = Module(name, path, rel, src, self.computed_attrs)
 
     def _abs_module(self, mod: Module, level: int, target: Optional[str]) -> str:
         if level == 0:
